@@ -456,6 +456,44 @@ def rule_none(ctx):
     return n + 1
 
 
+def bracketed_listing(ctx, g, hdef, listing, pm, reason=False):
+    """On every path through one turn of the refresh loop that reaches _process_mempool: the height was read (hdef), then the
+    listing requested, then the daemon height read again and found EQUAL to the first reading - whichever way the retry is
+    spelt (`if h != new: continue`, an inner `while True: ...; if h == new: break`, ...)."""
+    from .. import paths as P
+    v = _bracketed_listing(ctx, g, hdef, listing, pm)
+    return v if reason else v == 'ok'
+
+
+def _bracketed_listing(ctx, g, hdef, listing, pm):
+    from .. import paths as P
+    loops = [s for s in g.node.body if isinstance(s, ast.While)]
+    if len(loops) != 1:
+        return 'loop'
+    pst, lst = q.stmt(pm), q.stmt(listing)
+    reading = norm(hdef.value)
+    seen = 0
+    for p_ in P.paths(loops[0].body):
+        if not p_.passes(pst):
+            continue
+        seen += 1
+        idx = {id(x): k for k, x in enumerate(p_.passed)}
+        if id(hdef) not in idx or id(lst) not in idx or not idx[id(hdef)] < idx[id(lst)] < idx[id(pst)]:
+            return 'order'
+        good = False
+        for t, pol, n_ in p_.conds:
+            if not (isinstance(t, ast.Compare) and len(t.ops) == 1 and id(n_) in idx and idx[id(lst)] < idx[id(n_)] < idx[id(pst)]):
+                continue
+            if not ((isinstance(t.ops[0], ast.Eq) and pol) or (isinstance(t.ops[0], ast.NotEq) and not pol)):
+                continue
+            sides = {norm(t.left), norm(t.comparators[0])}
+            if reading in sides and 'await self.api.height()' in sides:
+                good = True
+        if not good:
+            return 'unchecked'
+    return 'ok' if seen > 0 else 'unreached'
+
+
 def rule_refresh_handover(ctx, rule='C09.HANDOVER'):
     '''MemPool._refresh_hashes reports to the notifications exactly what the property assumes of the mempool source:
     (i) the listing it processes is bracketed by two equal readings of the daemon height - the first one taken BEFORE the
@@ -479,18 +517,15 @@ def rule_refresh_handover(ctx, rule='C09.HANDOVER'):
     why = f'`{hv}` is not a single reading of the daemon height'
     if ok:
         hn = cfg.node(hdefs[0])
-        # within one iteration: reading -> listing (never listing -> reading -> use)
-        ok = cfg.dominates(hn, ln) and cfg.find_path([ln], {hn}, avoiding={cfg.node(q.stmt(pm[0]))} |
-                                                     {cfg.node(s) for s in g.node.body if isinstance(s, ast.While)}) is None
+        # within one turn of the loop: reading -> listing (never listing -> reading -> use) ...
+        ok = cfg.dominates(hn, ln)
         why = f'the height `{hv}` is read after the listing was requested: a block that arrives while the listing is in flight makes ' \
               'the old listing pass for the new height'
     if ok:
-        # the second reading guards the processing
-        chk = [s for s in g.own_nodes() if isinstance(s, ast.If) and isinstance(s.test, ast.Compare) and len(s.test.ops) == 1
-               and isinstance(s.test.ops[0], ast.NotEq) and hv in {norm(s.test.left), norm(s.test.comparators[0])}
-               and 'self.api.height()' in norm(s.test) and len(s.body) == 1 and isinstance(s.body[0], ast.Continue)]
-        ok = len(chk) == 1 and cfg.dominates(ln, cfg.node(chk[0])) and cfg.dominates(cfg.node(chk[0]), cfg.node(q.stmt(pm[0])))
-        why = 'the listing is processed without re-reading the daemon height and retrying when it moved'
+        # ... and the second reading guards the processing
+        verdict = bracketed_listing(ctx, g, hdefs[0], lists[0], pm[0], reason=True)
+        ok = verdict == 'ok'
+        why = why if verdict == 'order' else 'the listing is processed without re-reading the daemon height and retrying when it moved'
     ctx.check(ok, rule, ctx.key(g, q.stmt(lists[0]), 'listing bracketed by equal heights'),
               'the listing is requested between two readings of the daemon height and processed only when they agree',
               why, loc=ctx.loc(g, lists[0]))
